@@ -4,3 +4,5 @@ open XsVerif.Props.C19
 #print axioms path_selects_unique
 #print axioms path_exists
 #print axioms path_injective
+#print axioms render_resolves_partial
+#print axioms render_counterexample
